@@ -1024,4 +1024,24 @@ theorem resolve_eq_select (S : Schema) (hS : SchemaOK S) (hG : Gen.Introspect.ty
   apply assignAll_eq_mergePairs
   rw [keys_selL]; exact hsel.2
 
+/-! ### evaluation helpers for the witnesses -/
+
+namespace C16Witness
+
+def agree (S : Schema) (tyOrd : List TypeDef) (vars : List (String × J)) (q : List ISel) : Bool :=
+  resolve S tyOrd S.directives vars q == some (Spec.select vars q (Spec.introspect S))
+
+theorem ne_of_agree_false {S : Schema} {tyOrd : List TypeDef} {vars : List (String × J)} {q : List ISel}
+    (h : agree S tyOrd vars q = false) : resolve S tyOrd S.directives vars q ≠ some (Spec.select vars q (Spec.introspect S)) := by
+  intro e
+  unfold agree at h
+  rw [e] at h
+  have : (some (Spec.select vars q (Spec.introspect S)) == some (Spec.select vars q (Spec.introspect S))) = true := by
+    show J.beq _ _ = true
+    exact J.beq_refl _
+  rw [this] at h; cases h
+
+
+end C16Witness
+
 end PebblesVerif
